@@ -166,6 +166,14 @@ def match_lines(ctx, case, b_list, h_list, t_list, desc, extra_tol=0.0, transfor
         tol_end = 4 * ds + extra_tol + 1.5 * ds * 0.5
         ctx.check(e0 <= tol_end and e1 <= tol_end, "line_end_points_off_ridge_ends",
                   lambda: "ridge %r (ground truth %r) line %r: end distances %.2f / %.2f (tol %.2f); " % (r, gt, pts, e0, e1, tol_end) + desc())
+        # the end points sit on the ridge line too (the end compensation moves them along the line only)
+        (ax, ay), (bx, by) = gt[0], gt[1]
+        ln = math.hypot(bx - ax, by - ay)
+        if ln > 0:
+            for p in (pts[0], pts[-1]):
+                perp = abs((bx - ax) * (p[1] - ay) - (by - ay) * (p[0] - ax)) / ln
+                ctx.check(perp <= tol_pt + 0.3 * ds, "line_end_point_off_the_ridge_line",
+                          lambda: "ridge %r line %r: end point %r is %.2f from the ridge line (tol %.2f); " % (r, pts, p, perp, tol_pt + 0.3 * ds) + desc())
         h = [float(x) for x in h_list[i]]
         ctx.check(abs(h[0] - r["asc"] * ds) <= 1e-4 * (1 + r["asc"] * ds) and abs(h[1] - r["desc"] * ds) <= 1e-4 * (1 + r["desc"] * ds),
                   "heights_not_map_values_times_downsampling", lambda: "ridge %r heights %r ds %d; " % (r, h, ds) + desc())
